@@ -18,7 +18,9 @@ import c10_ref as R
 ID = "C10"
 RULE = ("cases = chain of 1..3 classes (attrs: slots x frozen x cache_hash x weakref_slot x getstate_setstate{None,T,F} x "
         "auto_detect x own __getstate__/__setstate__ x eq x unsafe_hash x collect_by_mro x 0..3 own fields (init or "
-        "init=False, int/str/mutable-box valued, names shared between classes so fields are inherited and re-declared); "
+        "init=False, int/str/mutable-box valued -- int-valued fields hold, with probability 0.4, an unusual value instead: attr.NOTHING, None, "
+        "NotImplemented, Ellipsis, False, 0, '', (), NaN, an int subclass, the cache field's name as a string, an instance of the same "
+        "class (harness-only variation: the model sees opaque tokens) --, names shared between classes so fields are inherited and re-declared); "
         "plain classes without / with empty / with named __slots__) x operation (copy, deepcopy, pickle protocol 0..5 "
         "with the C and the Python pickler, legacy tuple __setstate__ of several lengths) x history (hashed before, one "
         "field changed after hashing by assignment / in place / raw, init=False fields assigned). Single classes are "
@@ -32,6 +34,8 @@ ASSUMPTIONS = [
     "attribute lookup is modelled as: a slot descriptor anywhere along the MRO shadows the instance __dict__",
     "own __getstate__/__setstate__ written by the user are well behaved (all fields of type(self), cache reset)",
     "single-inheritance chains of at most 3 classes; no converters/validators/hooks; all fields take part in eq and hash",
+    "unusual field values are harness-only: the verdict must be the same for every value; NaN (unequal to itself) is used only where "
+    "nothing compares or hashes it by value (no generated __eq__; copy/deepcopy or no generated __hash__) and is recognised by v != v",
     "hash equality is compared as a pattern (hash(copy) == hash(fresh equal instance)), assuming no collision between the few distinct tokens",
 ]
 EXHAUSTIVE = {"quick": False, "thorough": False}
@@ -61,8 +65,35 @@ def attrs_cls(fields, slots=False, frozen=False, cache=False, weakref=True, gs="
             "api": api, "explicit": explicit, "gsExplicitNone": gs_explicit_none, "hashKw": hash_kw}
 
 
+SPECIALS = sorted(B.SPECIALS)
+
+
 def _fields(rng, n, pool=NAMES, p_init=0.85):
-    return [{"name": nm, "init": rng.random() < p_init, "kind": rng.choice(KINDS)} for nm in rng.sample(pool, min(n, len(pool)))]
+    fs = [{"name": nm, "init": rng.random() < p_init, "kind": rng.choice(KINDS)} for nm in rng.sample(pool, min(n, len(pool)))]
+    return add_specials(fs, rng)
+
+
+def add_specials(fields, rng, p=0.4):
+    """harness-only: an int-valued field may hold an unusual value instead (attr.NOTHING, None, NotImplemented,
+    Ellipsis, falsy values, NaN, an int subclass, the cache field's name, an instance of the same class)"""
+    for f in fields:
+        if f["kind"] == "int" and rng.random() < p:
+            f["special"] = rng.choice(SPECIALS)
+    return fields
+
+
+def _nan_ok(chain, op):
+    """NaN is unequal to itself: only where nothing compares or hashes it by value"""
+    if R.resolve_eq(chain) is not None:
+        return False
+    return op in ("copy", "deepcopy") or R.resolve_hash(chain)[0] != "gen"
+
+
+def _settle_specials(chain, op, rng):
+    """per case: replace NaN where Python's own semantics would break equality"""
+    if not any(f.get("special") == "nan" for c in chain for f in c["fields"]) or _nan_ok(chain, op):
+        return chain
+    return [dict(c, fields=[dict(f, special="none") if f.get("special") == "nan" else f for f in c["fields"]]) for c in chain]
 
 
 def rand_attrs_cls(rng, pool=NAMES):
@@ -135,7 +166,7 @@ def cases_for_chain(chain, rng, full):
         combos = ([(o, h0) for o in OPS] + [(o, h0) for o in rng.sample(legacy_ops(chain), 2)]
                   + [(o, h) for o in focus for h in hs if h != h0])
     for op, (hashed, m, how) in combos:
-        case = {"chain": chain, "op": op, "hashedBefore": hashed, "mutate": m,
+        case = {"chain": _settle_specials(chain, op, rng), "op": op, "hashedBefore": hashed, "mutate": m,
                 "assignUnset": True if has_unset else rng.random() < 0.5,
                 "cfg": {"mutateHow": how, "pickler": rng.choice(["c", "c", "py"])}}
         if R.wf(case):
@@ -189,6 +220,8 @@ def gen_cases(tier, rng):
         rng.shuffle(singles)
         singles = singles[:600]
     for chain in singles:
+        for c in chain:
+            add_specials(c["fields"], rng, 0.5)
         yield from cases_for_chain(chain, rng, full)
     for rep in range(5 if not full else 40):
         for chain in shaped_chains(rng):
@@ -222,6 +255,7 @@ def dist(case, obs):
         "exc": obs.get("exc") if isinstance(obs, dict) else "?",
         "cacheAfter": obs.get("cacheAfter") if isinstance(obs, dict) else "?",
         "api": leaf.get("api"),
+        "unusual_values": ",".join(sorted({f["special"] for f in B.leaf_fields(chain) if f.get("special")})) or "-",
     }
 
 
@@ -247,8 +281,8 @@ def _variants(case):
                 if c.get(k) != v:
                     yield dict(case, chain=chain[:i] + [dict(c, **{k: v})] + chain[i + 1:])
             for j, f in enumerate(c["fields"]):
-                for k, v in (("init", True), ("kind", "int")):
-                    if f[k] != v:
+                for k, v in (("init", True), ("kind", "int"), ("special", None)):
+                    if f.get(k) != v:
                         fs = c["fields"][:j] + [dict(f, **{k: v})] + c["fields"][j + 1:]
                         yield dict(case, chain=chain[:i] + [dict(c, fields=fs)] + chain[i + 1:])
         else:
@@ -310,4 +344,4 @@ LEVEL_TEXT = (
     "chains of <= 3 classes x operations x histories (see rule). Observed, not proved: CPython's object.__reduce_ex__/copyreg/copy/pickle "
     "fragment (modelled as small trusted functions and diff-tested with both picklers), that the result is a distinct object of the same "
     "class, hash collisions between tokens, class creation itself. Not covered: multiple inheritance, make_class/these=, per-field "
-    "eq=/hash= exclusions, converters/validators/on_setattr hooks, None-valued fields, user state methods that are not well behaved.")
+    "eq=/hash= exclusions, converters/validators/on_setattr hooks, self-referential (cyclic) instances, user state methods that are not well behaved.")
